@@ -98,6 +98,8 @@ type SchedCfg struct {
 	// StallUntil: stalls are only injected before this virtual time (0 = during the whole run);
 	// afterwards a parked yield is a pure reordering.
 	StallUntil Dur `json:"stall_until,omitempty"`
+	// StallFrom: stalls are only injected from this virtual time on
+	StallFrom Dur `json:"stall_from,omitempty"`
 	// StallSites: when set, only parks at these yield sites stall (and always do); parks at other
 	// sites are pure reorderings. Places the slow moments inside one kind of in-flight operation.
 	StallSites []string `json:"stall_sites,omitempty"`
